@@ -11,11 +11,18 @@ serving of pre-compressed ``.gz`` files with ``Content-Encoding: gzip``, byte
     "short" / "long"    reply as normal but with a body one byte shorter / longer
                         (Content-Length consistent with what is sent)
     "ignore-range"      ignore the Range header (200 with the full body)
+    "cut-body"          status line and headers of the normal reply (full Content-Length), then
+                        only half of the body, then the connection is closed
+    "cut-chunked"       the same with chunked transfer encoding, cut before the last chunk
+    "bad-gzip"          200/206 with "Content-Encoding: gzip" and a damaged gzip stream as body
+                        (the last three only apply to GET replies that would be 200/206;
+                        otherwise the normal reply is sent)
 
 The server counts requests from 0 (``site.reset()``) and logs
 (method, path, range) for each.  It is the counterpart of StHttp.serve /
 D_C12.scripted in the Coq model.
 """
+import gzip
 import http.server
 import os
 import re
@@ -130,6 +137,30 @@ class Handler(http.server.BaseHTTPRequestHandler):
             body = body[:-1]
         elif beh == "long" and not enc:
             body = body + b"\0"
+        elif beh == "bad-gzip":
+            good = gzip.compress(body or b"x" * 16)
+            body, enc = good[:10] + b"\xff" * 6 + good[-8:], True
+        elif beh in ("cut-body", "cut-chunked"):
+            self.send_response(status)
+            self.send_header("Content-Type", "application/octet-stream")
+            if enc:
+                self.send_header("Content-Encoding", "gzip")
+            half = body[:len(body) // 2]
+            if beh == "cut-body":
+                self.send_header("Content-Length", str(len(body) if len(body) > 1 else len(body) + 7))
+                self.end_headers()
+                self.wfile.write(half)
+            else:
+                self.send_header("Transfer-Encoding", "chunked")
+                self.end_headers()
+                self.wfile.write(b"%x\r\n" % max(len(half), 1) + (half or b"x") + b"\r\n")
+            self.wfile.flush()
+            try:
+                self.connection.shutdown(socket.SHUT_RDWR)
+            except OSError:
+                pass
+            self.close_connection = True
+            return
         self._reply(status, body, enc=enc, total=len(data), rng=crange)
 
     def do_GET(self):
